@@ -358,7 +358,46 @@ def c06(chk):
                     chk.count(key=(cfg, lattice.hist_key(it["hist"]), rec["kind"], rec.get("ci", rec.get("ti"))), nontrivial=True)
                     judge(chk, sc, cfg, it, rec, det0)
             chk.sample({"config": cfg, "pre_state_program": short(sel[0]["hist"]), "hom_cases": len(sel[0]["hom"]), "tuples": [t["ms"] for t in sel[0]["tuples"]][:6]})
+    cat_measurements(chk)
     chk.exhaustive = True
+
+
+def cat_measurements(chk):
+    """non-Gaussian pre-measurement states: a cat state (any parity) after one lattice operation, then a post-selected homodyne /
+    heterodyne measurement of either mode (MC_Cat.tla with MeasMode = "final": exact component means, shared covariance and
+    the exponents of the weight factors); the conditional state of the bosonic simulator is compared through its first and
+    second moments"""
+    from . import p_gauss
+    r = chk.tlc("MC_Cat", constants={"Depth": 1, "ANum": 1, "ADen": 2 if chk.tier == "quick" else 1, "MeasMode": "final", "EMIT": True},
+                invariants=["CovPhysical", "Paired", "MeasuredModeReset", "EmitInv"])
+    items = r.json
+    if chk.tier == "quick":
+        items = [it for k, it in enumerate(items) if len(it["hist"]) == 2 or k % 3 == chk.seed % 3]
+    par = p_gauss.CAT_PARITIES
+    jobs = [(it, p, "bosonic", None) for it in items for p in par]
+    res = common.pmap(p_gauss._cat_run, jobs, chunksize=4)
+    worst = 0.0
+    for (it, p, _, _), o in zip(jobs, res):
+        chk.traces += 1
+        chk.count(key=("catmeas", p, lattice.hist_key(it["hist"])), nontrivial=True)
+        meas = it["hist"][-1]
+        f = {"backend": "bosonic", "kind": "hom" if meas["name"] == "MeasureHomodyne" else "het", "state": "cat"}
+        det = {"config": "bosonic", "program": "Catstate(%s, parity %s) ; %s" % (lattice.fmt_p(it["hist"][0]["p"]), p, short(it["hist"][1:]))}
+        if not o["ok"]:
+            chk.violation("UnexpectedError", dict(f, error=o["err"]), dict(det, msg=o["msg"]))
+            continue
+        orc = p_gauss.cat_oracle(it, p)
+        if orc is None:
+            chk.inconclusive += 1
+            continue
+        mean, cov, imag = orc
+        gm, gV = np.array(o["proj"]["mu"]), np.array(o["proj"]["V"])
+        d = float(max(np.max(np.abs(gm - mean)), np.max(np.abs(gV - cov))))
+        worst = max(worst, d)
+        if d > 2e-3 * (1 + float(np.max(np.abs(cov)))):
+            chk.violation("ConditionalState", f, dict(det, diff=d, got_mu=np.round(gm, 5).tolist(), want_mu=np.round(mean, 5).tolist(),
+                                                      got_V=np.round(gV, 5).tolist(), want_V=np.round(cov, 5).tolist()))
+    chk.notes["cat_measurements"] = {"cases": len(jobs), "worst_moment_difference": worst}
 
 
 def judge(chk, sc, cfg, it, rec, det0):
